@@ -132,6 +132,32 @@ type scRender struct {
 	ItemAt map[int][2]int // item index -> (line, column) where its statement starts
 }
 
+// scMarkAttr writes a <const> attribute on every second local declaration (by position) that has an initialiser and whose
+// names are never assigned again.
+func scMarkAttr(items []scItem) {
+	written := map[int]bool{}
+	for _, it := range items {
+		switch it.K {
+		case "assign", "gfunc":
+			written[it.Nb] = true
+		case "assign2":
+			written[it.Nb], written[it.Mb] = true, true
+		}
+	}
+	for i := range items {
+		it := &items[i]
+		if i%2 != 0 {
+			continue
+		}
+		if it.K == "local" && it.Fl != "none" && !written[it.ID] {
+			it.Attr = true
+		}
+		if it.K == "local2" && !written[it.ID] && !written[it.Mid] {
+			it.Attr = true
+		}
+	}
+}
+
 func scFileName(i int) string { return fmt.Sprintf("f%d.lua", i+1) }
 
 // scRenderProg renders items one statement per line, ASCII only, no indentation.
@@ -216,6 +242,10 @@ func scRenderMode(items []scItem, mode int) *scRender {
 				add(i, "local ", decl("n", it.N, it.ID, "local"), " = {", use("u", it.U, it.B, it.Alt), "}")
 			}
 		case "local2":
+			if it.Attr {
+				add(i, "local ", decl("n", it.N, it.ID, "local"), " <const>, ", decl("m", it.M, it.Mid, "local"), " <const> = ", use("u", it.U, it.B, it.Alt))
+				continue
+			}
 			add(i, "local ", decl("n", it.N, it.ID, "local"), ", ", decl("m", it.M, it.Mid, "local"), " = ", use("u", it.U, it.B, it.Alt))
 		case "use":
 			add(i, "print(", use("u", it.U, it.B, it.Alt), ")")
